@@ -155,6 +155,7 @@ BUILTIN_ADTS = {
     'std::option::Option': [('None', []), ('Some', ['0'])],
     'std::result::Result': [('Ok', ['0']), ('Err', ['0'])],
     'std::ops::ControlFlow': [('Continue', ['0']), ('Break', ['0'])],
+    'std::sync::TryLockError': [('Poisoned', ['0']), ('WouldBlock', [])],
     'std::cmp::Ordering': [('Less', []), ('Equal', []), ('Greater', [])],
 }
 BUILTIN_DISCR = {'std::cmp::Ordering': {'Less': -1, 'Equal': 0, 'Greater': 1}}
@@ -333,7 +334,9 @@ class FDI:
             for vn, fl in BUILTIN_ADTS[head]:
                 ftys = []
                 if fl:
-                    if head == 'std::result::Result':
+                    if head == 'std::sync::TryLockError':
+                        ftys = [f"std::sync::PoisonError<{args[0]}>" if args else '?']
+                    elif head == 'std::result::Result':
                         ftys = [args[0] if vn == 'Ok' else (args[1] if len(args) > 1 else '?')] if args else ['?']
                     elif head == 'std::ops::ControlFlow':
                         ftys = [args[1] if vn == 'Continue' and len(args) > 1 else (args[0] if args else '?')]
